@@ -143,4 +143,41 @@ theorem zip_targets (vs : List Int) (pats : List PatKind) :
     rw [hdrop]
     simp only [List.zipIdx_cons, List.map_cons, List.zip_cons_cons, hrec]
 
+/-- the expected statements assign the user patterns in list order: positions `i, i+1, …` -/
+theorem assignOrder_expectedStmts (pats : List PatKind) :
+    ∀ i, assignOrder (expectedStmts i pats) = List.range' i pats.length := by
+  induction pats with
+  | nil => intro i; rfl
+  | cons p rem ih =>
+    intro i
+    rw [expectedStmts_cons]
+    by_cases hp : p = .typedPlace <;> simp [hp, assignOrder, ih (i + 1), List.range'_succ]
+
+/-- applying the writes `target_i := component_i` one after the other, in list order, is the
+    statement sequence `p0 = t.0; p1 = t.1; …` -/
+theorem runWrites_zip {σ : Type} (write : σ → Lhs → Val → σ) (ts : List Lhs) :
+    ∀ (s : σ) (vs : List Int),
+      runWrites write s (ts.zip (vs.map Val.scalar)) =
+        Spec.OptRes.assignInOrder write Val.scalar s ts vs := by
+  induction ts with
+  | nil => intro s vs; simp [runWrites, Spec.OptRes.assignInOrder]
+  | cons t ts ih =>
+    intro s vs
+    cases vs with
+    | nil => simp [runWrites, Spec.OptRes.assignInOrder]
+    | cons v vs =>
+      have := ih (write s t (Val.scalar v)) vs
+      simpa [runWrites, Spec.OptRes.assignInOrder] using this
+
+theorem runWrites_destructure {σ : Type} (write : σ → Lhs → Val → σ) (s : σ) (ts : List Lhs)
+    (vs : List Int) :
+    runWrites write s (Spec.OptRes.destructure payloadVal Val.scalar ts vs) =
+      Spec.OptRes.assignSeq write payloadVal Val.scalar s ts vs := by
+  match ts with
+  | [] => simp [Spec.OptRes.destructure, Spec.OptRes.assignSeq, runWrites, Spec.OptRes.assignInOrder]
+  | [t] => simp [Spec.OptRes.destructure, Spec.OptRes.assignSeq, runWrites]
+  | t :: t' :: rest =>
+    simp only [Spec.OptRes.destructure, Spec.OptRes.assignSeq]
+    exact runWrites_zip write (t :: t' :: rest) s vs
+
 end Konst.Lemmas.OptRes
